@@ -1,4 +1,294 @@
-#![allow(unused)]
+//! C14 (host names text <-> wire) and C13 (record text synthesis) replayed on the real crate.
 use crate::util::*;
-pub fn replay(_p: &str, _a: &[&str]) -> Result<(), String> { Err("not implemented".into()) }
-pub fn gen(_p: &str, _r: &mut Rng) -> Vec<String> { vec![] }
+use crate::wire;
+use dnssector::*;
+
+/// reference text -> wire conversion, written from the property text of C14 (and the crate's documented limits:
+/// labels of at most 62 bytes, no byte above 128, text and wire of at most 253 bytes)
+pub fn ref_name_to_wire(name: &[u8], zone: Option<&[u8]>) -> Option<Vec<u8>> {
+    if name.len() > 253 { return None; }
+    if name == b"." { return Some(vec![0]); }
+    let mut out = vec![];
+    let mut i = 0;
+    let mut ended_with_dot = false;
+    while i < name.len() {
+        let e = name[i..].iter().position(|&c| c == b'.').map(|k| i + k).unwrap_or(name.len());
+        if e == i { return None; }                                  // empty label (leading dot, two dots)
+        if e - i > 62 { return None; }
+        if name[i..e].iter().any(|&c| c > 128) { return None; }
+        out.push((e - i) as u8);
+        out.extend_from_slice(&name[i..e]);
+        ended_with_dot = e < name.len();
+        i = e + 1;
+    }
+    if name.is_empty() || ended_with_dot { out.push(0); } else {
+        match zone { None => out.push(0), Some(z) => out.extend_from_slice(z) }
+    }
+    if out.len() > 253 { return None; }
+    Some(out)
+}
+
+fn strip_dot(s: &[u8]) -> &[u8] { if s.last() == Some(&b'.') { &s[..s.len() - 1] } else { s } }
+
+/// ops:
+///   c14 name <hex text> <hex zone | ->          conversion equals the reference; reads back as the lowercased input
+///   c13 build <type> <hex owner> <hex field1> [<hex field2>] [<u32> ...]   typed builders equal the RFC 1035 wire form
+///   c13 text <hex record text>                  from_string never panics; an Ok result is the reference wire form (when the reference knows it)
+pub fn replay(prop: &str, a: &[&str]) -> Result<(), String> {
+    match (prop, a.get(0).copied().unwrap_or("")) {
+        ("c14", "name") => {
+            let name = unhex(a[1])?;
+            let zone = if a[2] == "-" { None } else { Some(unhex(a[2])?) };
+            let real = r#gen::raw_name_from_str(&name, zone.as_deref()).ok();
+            let reference = ref_name_to_wire(&name, zone.as_deref());
+            if real != reference { return Err(format!("raw_name_from_str = {:?}, reference = {:?}", real.map(|v| hex(&v)), reference.map(|v| hex(&v)))); }
+            if let (Some(w), None) = (&reference, &zone) {
+                // well-formed pointer-free wire name
+                if wire::plain_walk(w, 0) != Some(w.len()) { return Err("result is not a well-formed wire name".into()); }
+                // reads back as the lowercased input without its trailing dot (only meaningful for names the parser accepts)
+                if !name.iter().any(|&c| wire::bad_char(c) && c != b'.') {
+                    let mut pp = match r#gen::query(&name, Type::A, Class::IN) { Ok(pp) => pp, Err(e) => return Err(format!("query() failed: {}", e)) };
+                    let bytes = pp.packet.clone().unwrap();
+                    if DNSSector::new(bytes).unwrap().parse().is_err() { return Err("synthesised query is not accepted by the parser".into()); }
+                    let mut it = pp.into_iter_question();
+                    let item = it.take().ok_or("no question")?;
+                    let got = item.name();
+                    let want: Vec<u8> = if name == b"." { vec![] } else { strip_dot(&name).to_ascii_lowercase() };
+                    if got != want { return Err(format!("reads back as {:?}", String::from_utf8_lossy(&got))); }
+                }
+            }
+            Ok(())
+        }
+        ("c13", "build") => build(&a[1..]),
+        ("c13", "text") => {
+            let s = unhex(a[1])?;
+            let s = match String::from_utf8(s) { Ok(s) => s, Err(_) => return Ok(()) };
+            let real = r#gen::RR::from_string(&s);
+            let reference = ref_text(&s);
+            match (real, reference) {
+                (Ok(rr), Some(Some(w))) => { if rr.packet != w { return Err(format!("from_string = {}, reference = {}", hex(&rr.packet), hex(&w))); } check_insert(rr)?; }
+                (Err(e), Some(Some(_))) => return Err(format!("valid text rejected: {}", e)),
+                (Ok(rr), Some(None)) => return Err(format!("text outside the grammar accepted: {}", hex(&rr.packet))),
+                (Ok(rr), None) => { check_insert(rr)?; }        // reference has no opinion: anything returned must still be a well-formed record
+                _ => {}
+            }
+            Ok(())
+        }
+        _ => Err("usage: c14 name <hex> <hexzone|-> | c13 build .. | c13 text <hex>".into()),
+    }
+}
+
+/// anything synthesis returns is a well-formed record: inserting it into a valid response leaves an accepted packet
+fn check_insert(rr: r#gen::RR) -> Result<(), String> {
+    for sec in [Section::Answer, Section::NameServers, Section::Additional] {
+        let base: Vec<u8> = vec![0, 1, 0x80, 0, 0, 1, 0, 0, 0, 0, 0, 0, 1, b'q', 0, 0, 1, 0, 1];
+        let mut pp = DNSSector::new(base).unwrap().parse().map_err(|e| e.to_string())?;
+        pp.insert_rr(sec, rr.clone()).map_err(|e| format!("insert_rr failed: {}", e))?;
+        let bytes = pp.packet.clone().unwrap();
+        if let Err(e) = DNSSector::new(bytes.clone()).unwrap().parse() { return Err(format!("packet after insertion is rejected: {} ({})", e, hex(&bytes))); }
+    }
+    Ok(())
+}
+
+fn rr_wire(owner: &[u8], rtype: u16, ttl: u32, rdata: &[u8]) -> Option<Vec<u8>> {
+    let mut w = ref_name_to_wire(owner, None)?;
+    if rdata.len() > 0xffff { return None; }
+    put16(&mut w, rtype); put16(&mut w, 1); put32(&mut w, ttl); put16(&mut w, rdata.len() as u16);
+    w.extend_from_slice(rdata);
+    Some(w)
+}
+
+fn build(a: &[&str]) -> Result<(), String> {
+    let owner = unhex(a[1])?;
+    let ttl = 300u32;
+    let hdr = |t: Type| r#gen::RRHeader { name: owner.clone(), ttl, class: Class::IN, rr_type: t };
+    let (real, reference): (Result<r#gen::RR, _>, Option<Vec<u8>>) = match a[0] {
+        "ns" | "cname" | "ptr" => {
+            let h = unhex(a[2])?;
+            let t = match a[0] { "ns" => Type::NS, "cname" => Type::CNAME, _ => Type::PTR };
+            let real = match a[0] { "ns" => r#gen::NS::build(hdr(t), h.clone()), "cname" => r#gen::CNAME::build(hdr(t), h.clone()), _ => r#gen::PTR::build(hdr(t), h.clone()) };
+            (real, ref_name_to_wire(&h, None).and_then(|rd| rr_wire(&owner, t.into(), ttl, &rd)))
+        }
+        "mx" => {
+            let h = unhex(a[2])?; let pref: u16 = a[3].parse().map_err(|_| "pref")?;
+            let rd = ref_name_to_wire(&h, None).map(|n| { let mut v = vec![(pref >> 8) as u8, pref as u8]; v.extend(n); v });
+            (r#gen::MX::build(hdr(Type::MX), pref, h.clone()), rd.and_then(|rd| rr_wire(&owner, 15, ttl, &rd)))
+        }
+        "soa" => {
+            let n1 = unhex(a[2])?; let n2 = unhex(a[3])?;
+            let v: Vec<u32> = a[4..9].iter().map(|x| x.parse().unwrap_or(0)).collect();
+            let rd = match (ref_name_to_wire(&n1, None), ref_name_to_wire(&n2, None)) {
+                (Some(mut x), Some(y)) => { x.extend(y); for k in 0..5 { put32(&mut x, v[k]); } Some(x) }
+                _ => None,
+            };
+            (r#gen::SOA::build(hdr(Type::SOA), n1, n2, v[0], v[1], v[2], v[3], v[4]), rd.and_then(|rd| rr_wire(&owner, 6, ttl, &rd)))
+        }
+        "txt" => {
+            let t = unhex(a[2])?;
+            let rd = if t.len() > (4096 - 12 - 1 - 10) / 256 * 255 { None } else {
+                let mut v = vec![]; for c in t.chunks(255) { v.push(c.len() as u8); v.extend_from_slice(c); } Some(v) };
+            (r#gen::TXT::build(hdr(Type::TXT), t), rd.and_then(|rd| rr_wire(&owner, 16, ttl, &rd)))
+        }
+        "ds" => {
+            let d = unhex(a[2])?; let kt: u16 = a[3].parse().map_err(|_| "keytag")?; let alg: u8 = a[4].parse().map_err(|_| "alg")?; let dt: u8 = a[5].parse().map_err(|_| "dt")?;
+            let mut rd = vec![(kt >> 8) as u8, kt as u8, alg, dt]; rd.extend_from_slice(&d);
+            (r#gen::DS::build(hdr(Type::DS), kt, alg, dt, d), rr_wire(&owner, 43, ttl, &rd))
+        }
+        "a" => {
+            let ip = unhex(a[2])?; if ip.len() != 4 { return Ok(()); }
+            (r#gen::A::build(hdr(Type::A), std::net::Ipv4Addr::new(ip[0], ip[1], ip[2], ip[3])), rr_wire(&owner, 1, ttl, &ip))
+        }
+        "aaaa" => {
+            let ip = unhex(a[2])?; if ip.len() != 16 { return Ok(()); }
+            let mut b = [0u8; 16]; b.copy_from_slice(&ip);
+            (r#gen::AAAA::build(hdr(Type::AAAA), std::net::Ipv6Addr::from(b)), rr_wire(&owner, 28, ttl, &ip))
+        }
+        _ => return Err("unknown builder".into()),
+    };
+    match (real, reference) {
+        (Ok(rr), Some(w)) => { if rr.packet != w { return Err(format!("{} builder = {}, RFC 1035 form = {}", a[0], hex(&rr.packet), hex(&w))); }
+                               if rr.rdata() != &w[w.len() - rr.rdata().len()..] { return Err("rdata() wrong".into()); } Ok(()) }
+        (Err(e), Some(_)) => Err(format!("{} builder rejected valid fields: {}", a[0], e)),
+        (Ok(rr), None) => Err(format!("{} builder accepted invalid fields: {}", a[0], hex(&rr.packet))),
+        (Err(_), None) => Ok(()),
+    }
+}
+
+// ---- reference for record text.  Some(Some(w)): grammatical, wire w.  Some(None): certainly outside the grammar.  None: no opinion.
+fn ref_text(s: &str) -> Option<Option<Vec<u8>>> {
+    let toks: Vec<&str> = s.split(|c| c == ' ' || c == '\t').filter(|t| !t.is_empty()).collect();
+    if s.bytes().any(|c| c == b'\n' || c == b'\r' || c == b'"' || c == b'\\' || c >= 128 || c < 9 || (c > 9 && c < 32)) { return None; }
+    if toks.len() < 4 { return Some(None); }
+    let owner = toks[0];
+    // hostname grammar of the text parser: labels start with a letter, digit or '_', continue with letters, digits or '-'; not all-numeric
+    let name_ok = |n: &str| -> bool {
+        if n.is_empty() || n.bytes().all(|c| c.is_ascii_digit() || c == b'.') { return false; }
+        if n == "." { return true; }
+        n.trim_end_matches('.').split('.').all(|l| !l.is_empty() && l.len() <= 62 && {
+            let b = l.as_bytes();
+            (b[0].is_ascii_alphanumeric() || b[0] == b'_') && b[1..].iter().all(|&c| c.is_ascii_alphanumeric() || c == b'-') })
+            && !n.ends_with("..") && !n.starts_with('.')
+    };
+    if !name_ok(owner) { return None; }
+    let ttl: u32 = match toks[1].parse::<u64>() { Ok(v) if v <= u32::MAX as u64 && toks[1].bytes().all(|c| c.is_ascii_digit()) => v as u32, _ => return if toks[1].bytes().all(|c| c.is_ascii_digit()) { Some(None) } else { None } };
+    if !toks[2].eq_ignore_ascii_case("IN") { return None; }
+    let t = toks[3].to_ascii_uppercase();
+    let rest = &toks[4..];
+    let num = |x: &str, max: u64| -> Option<u64> { if !x.is_empty() && x.bytes().all(|c| c.is_ascii_digit()) && x.len() < 15 { x.parse::<u64>().ok().filter(|v| *v <= max) } else { None } };
+    let wire = |rtype: u16, rd: Option<Vec<u8>>| -> Option<Option<Vec<u8>>> {
+        match rd { Some(rd) => { let mut w = ref_name_to_wire(owner.as_bytes(), None)?; put16(&mut w, rtype); put16(&mut w, 1); put32(&mut w, ttl); put16(&mut w, rd.len() as u16); w.extend(rd); Some(Some(w)) }, None => None }
+    };
+    match t.as_str() {
+        "A" => { if rest.len() != 1 { return Some(None); }
+                 let p: Vec<&str> = rest[0].split('.').collect();
+                 if p.len() != 4 { return None; }
+                 let mut ip = vec![]; for x in p { match num(x, 255) { Some(v) if x.len() <= 3 && !(x.len() > 1 && x.starts_with('0')) => ip.push(v as u8), _ => return None } }
+                 wire(1, Some(ip)) }
+        "NS" | "CNAME" | "PTR" => { if rest.len() != 1 { return Some(None); } if !name_ok(rest[0]) { return None; }
+                 let rt = match t.as_str() { "NS" => 2, "CNAME" => 5, _ => 12 };
+                 wire(rt, ref_name_to_wire(rest[0].as_bytes(), None)) }
+        "MX" => { if rest.len() != 2 { return Some(None); } if !name_ok(rest[1]) { return None; }
+                 let pref = match num(rest[0], 65535) { Some(v) => v as u16, None => return if rest[0].bytes().all(|c| c.is_ascii_digit()) { Some(None) } else { None } };
+                 wire(15, ref_name_to_wire(rest[1].as_bytes(), None).map(|n| { let mut v = vec![(pref >> 8) as u8, pref as u8]; v.extend(n); v })) }
+        "SOA" => {
+                 // ns contact ( serial refresh retry expire minimum )
+                 let joined = rest.join(" ");
+                 let (names, nums) = match joined.split_once('(') { Some(x) => x, None => return None };
+                 let nums = match nums.trim_end().strip_suffix(')') { Some(x) => x, None => return None };
+                 let nm: Vec<&str> = names.split(' ').filter(|t| !t.is_empty()).collect();
+                 let nv: Vec<&str> = nums.split(' ').filter(|t| !t.is_empty()).collect();
+                 if nm.len() != 2 || nv.len() != 5 { return None; }
+                 if !name_ok(nm[0]) || !name_ok(nm[1]) { return None; }
+                 let mut rd = match (ref_name_to_wire(nm[0].as_bytes(), None), ref_name_to_wire(nm[1].as_bytes(), None)) { (Some(mut x), Some(y)) => { x.extend(y); x }, _ => return None };
+                 for x in &nv { match num(x, u32::MAX as u64) { Some(v) => put32(&mut rd, v as u32), None => return if x.bytes().all(|c| c.is_ascii_digit()) { Some(None) } else { None } } }
+                 wire(6, Some(rd)) }
+        "DS" => { if rest.len() != 4 { return None; }
+                 let kt = num(rest[0], 65535)?; let alg = num(rest[1], 255)?; let dt = num(rest[2], 255)?;
+                 let h = rest[3];
+                 if !h.bytes().all(|c| c.is_ascii_hexdigit()) { return None; }
+                 if h.len() % 2 != 0 { return Some(None); }
+                 let mut rd = vec![(kt >> 8) as u8, kt as u8, alg as u8, dt as u8]; rd.extend(unhex(&h.to_ascii_lowercase()).ok()?);
+                 wire(43, Some(rd)) }
+        _ => None,
+    }
+}
+
+const LAB: &[u8] = b"abcXYZ019-_";
+
+fn gen_text_name(r: &mut Rng, hostile: bool) -> Vec<u8> {
+    let mut out = vec![];
+    let nl = match r.below(12) { 0 => 0, 1 => 5 + r.below(3) as usize, _ => 1 + r.below(3) as usize };
+    for k in 0..nl {
+        if k > 0 { out.push(b'.'); }
+        let n = match r.below(14) { 0 => 61, 1 => 62, 2 => 63, 3 => 64, _ => 1 + r.below(8) as usize };
+        for _ in 0..n { out.push(*r.pick(LAB)); }
+    }
+    if r.chance(1, 4) { out.push(b'.'); }
+    if hostile { match r.below(6) { 0 => out.insert(0, b'.'), 1 => { let i = r.below(out.len() as u64 + 1) as usize; out.insert(i, b'.'); }
+                                     2 => { let i = r.below(out.len() as u64 + 1) as usize; out.insert(i, *r.pick(&[128u8, 129, 200, 255, 0, b' ', b'\\'])); }
+                                     _ => {} } }
+    out
+}
+fn gen_host(r: &mut Rng) -> String {
+    if r.chance(1, 10) { let n = 120 + r.below(136) as usize; return String::from_utf8(long_name(r, n)).unwrap(); }
+    let nl = 1 + r.below(3) as usize;
+    let mut out = String::new();
+    for k in 0..nl {
+        if k > 0 { out.push('.'); }
+        let n = match r.below(14) { 0 => 61, 1 => 62, 2 => 63, _ => 1 + r.below(8) as usize };
+        out.push(*r.pick(&['a', 'Z', '0', '_', 'q']));
+        for _ in 1..n { out.push(*r.pick(&['a', 'B', '7', '-', 'x'])); }
+    }
+    if r.chance(1, 4) { out.push('.'); }
+    if r.chance(1, 12) { let i = r.below(out.len() as u64 + 1) as usize; out.insert(i, *r.pick(&['_', '-', '.', '!'])); }
+    out
+}
+fn long_name(r: &mut Rng, wire_len: usize) -> Vec<u8> {
+    // text whose wire form has exactly wire_len bytes: labels of 62 + one filler label
+    let mut out: Vec<u8> = vec![]; let mut w = 1usize;
+    while w + 63 + 2 <= wire_len { if !out.is_empty() { out.push(b'.'); } out.extend(std::iter::repeat(*r.pick(b"abcXYZ")).take(62)); w += 63; }
+    let rest = wire_len - w;
+    if rest >= 2 { if !out.is_empty() { out.push(b'.'); } out.extend(std::iter::repeat(b'y').take(rest - 1)); }
+    out
+}
+
+pub fn gen(prop: &str, r: &mut Rng) -> Vec<String> {
+    if prop == "c14" {
+        let name = match r.below(8) { 0 => { let n = 248 + r.below(9) as usize; long_name(r, n) }, 1 => b".".to_vec(), _ => { let h = r.chance(1, 3); gen_text_name(r, h) } };
+        let zone = if r.chance(1, 4) { let z = gen_text_name(r, false); ref_name_to_wire(strip_dot(&z), None).map(|w| hex(&w)).unwrap_or("-".into()) } else { "-".into() };
+        return vec!["c14".into(), "name".into(), hex(&name), zone];
+    }
+    let name = |r: &mut Rng| -> Vec<u8> { if r.chance(1, 6) { let n = 120 + r.below(136) as usize; long_name(r, n) } else { let h = r.chance(1, 8); gen_text_name(r, h) } };
+    match r.below(16) {
+        0 => vec!["c13".into(), "build".into(), "mx".into(), hex(&name(r)), hex(&name(r)), (r.next() as u16).to_string()],
+        1 => { let mut v = vec!["c13".to_string(), "build".into(), "soa".into(), hex(&name(r)), hex(&name(r)), hex(&name(r))]; for _ in 0..5 { v.push((r.next() as u32).to_string()); } v }
+        2 => { let t = *r.pick(&["ns", "cname", "ptr"]); vec!["c13".into(), "build".into(), t.into(), hex(&name(r)), hex(&name(r))] }
+        3 => { let n = *r.pick(&[0usize, 1, 254, 255, 256, 510, 511, 3825, 3826, 4000]); vec!["c13".into(), "build".into(), "txt".into(), hex(&name(r)), hex(&r.bytes(n))] }
+        4 => { let n = r.below(40) as usize; vec!["c13".into(), "build".into(), "ds".into(), hex(&name(r)), hex(&r.bytes(n)), (r.next() as u16).to_string(), (r.next() as u8).to_string(), (r.next() as u8).to_string()] }
+        5 => vec!["c13".into(), "build".into(), "a".into(), hex(&name(r)), hex(&r.bytes(4))],
+        6 => vec!["c13".into(), "build".into(), "aaaa".into(), hex(&name(r)), hex(&r.bytes(16))],
+        _ => {
+            // record text
+            let owner = gen_host(r);
+            let ttl = match r.below(6) { 0 => "0".to_string(), 1 => "4294967295".into(), 2 => "4294967296".into(), 3 => "99999999999999999999".into(), _ => (r.next() as u32).to_string() };
+            let ws = |r: &mut Rng| -> String { (0..1 + r.below(3)).map(|_| if r.chance(1, 3) { '\t' } else { ' ' }).collect() };
+            let hn = |r: &mut Rng| -> String { gen_host(r) };
+            let kw = |r: &mut Rng, s: &str| -> String { s.chars().map(|c| if r.chance(1, 2) { c.to_ascii_lowercase() } else { c }).collect() };
+            let body = match r.below(9) {
+                0 => format!("{}{}{}", kw(r, "A"), ws(r), (0..4).map(|_| r.below(300).to_string()).collect::<Vec<_>>().join(".")),
+                1 => format!("{}{}{:x}:{:x}::{:x}", kw(r, "AAAA"), ws(r), r.next() as u16, r.next() as u16, r.next() as u16),
+                2 => { let k = *r.pick(&["NS", "CNAME", "PTR"]); format!("{}{}{}", kw(r, k), ws(r), hn(r)) }
+                3 => format!("{}{}{}{}{}", kw(r, "MX"), ws(r), r.below(70000), ws(r), hn(r)),
+                4 => format!("{}{}{}{}{}{}({} {} {} {} {}){}", kw(r, "SOA"), ws(r), hn(r), ws(r), hn(r), ws(r), r.next() as u32, r.next() as u32, r.below(5000000000), r.next() as u32, r.next() as u32, if r.chance(1, 3) { " " } else { "" }),
+                5 => { let n = r.below(9) as usize; format!("{}{}{} {} {} {}", kw(r, "DS"), ws(r), r.below(70000), r.below(300), r.below(300), hex(&r.bytes(n)).replace("-", "") + if r.chance(1, 3) { "a" } else { "" }) }
+                6 => { let n = *r.pick(&[0usize, 3, 255, 256, 300]); format!("{}{}\"{}\"", kw(r, "TXT"), ws(r), (0..n).map(|_| *r.pick(&['a', 'b', ' ', '\\', '0', '4', '6', '"'])).collect::<String>()) }
+                7 => format!("{}{}{}", kw(r, "TXT"), ws(r), (0..r.below(6)).map(|_| *r.pick(&['a', '\\', '1', '9', '"'])).collect::<String>()),
+                _ => { let k = *r.pick(&["MX", "SOA", "DS", "A", "NS"]); format!("{} {}", kw(r, k), hn(r)) }
+            };
+            let mut text = format!("{}{}{}{}{}{}{}", owner, ws(r), ttl, ws(r), kw(r, "IN"), ws(r), body);
+            if r.chance(1, 6) { let n = r.below(text.len() as u64 + 1) as usize; if text.is_char_boundary(n) { text.truncate(n); } }
+            if r.chance(1, 8) { text.push_str(" extra"); }
+            vec!["c13".into(), "text".into(), hex(text.as_bytes())]
+        }
+    }
+}
